@@ -23,11 +23,14 @@ def allowed : String → List String
   | "ids" => ["0"]
   | "rebind" => ["ok"]
   | "redial" => ["0"]
+  | "midhandshake-conn" => ["closed"]           -- a connection still shaking hands when the socket was closed
+  | "second-listen" => ["addrinuse"]            -- a second listener for an address in use
+  | "bystander-dial" => ["ok"]                  -- … whose closing leaves the owner of the address in service
   | _ => []
 
 /-- nothing but Close itself and a Recv that finds a queued message reports success on a closed socket, and nothing
     is allowed to hang -/
-theorem success_only_where_stated (what : String) (h : "ok" ∈ allowed what) : what = "close" ∨ what = "after-recv" ∨ what = "rebind" := by
+theorem success_only_where_stated (what : String) (h : "ok" ∈ allowed what) : what = "close" ∨ what = "after-recv" ∨ what = "rebind" ∨ what = "bystander-dial" := by
   unfold allowed at h
   split at h <;> simp at h <;> simp
 
